@@ -40,6 +40,9 @@ type Spec struct {
 	// closed at once and its events are not logged); the remaining steps follow and the Build
 	// under observation comes last. What Build decides must depend on the final set only.
 	RebuildAfter int `json:"rebuild_after,omitempty"`
+	// KeepSibling (with RebuildAfter): the provider of the intermediate Build stays alive next to
+	// the one under observation and keeps being used (see sibling.go).
+	KeepSibling bool `json:"keep_sibling,omitempty"`
 }
 
 func lifeName(l godi.Lifetime) string {
@@ -136,7 +139,11 @@ func (s *Spec) Lines() []string {
 	out := make([]string, 0, len(s.Regs)+1)
 	for i, r := range s.Regs {
 		if s.RebuildAfter > 0 && i == s.RebuildAfter {
-			out = append(out, "-- intermediate Build (provider closed at once) --")
+			if s.KeepSibling {
+				out = append(out, "-- intermediate Build (provider kept alive and used until the end of the run) --")
+			} else {
+				out = append(out, "-- intermediate Build (provider closed at once) --")
+			}
 		}
 		out = append(out, fmt.Sprintf("r%d %s", i, r.String()))
 	}
@@ -160,7 +167,7 @@ func (s *Spec) Canon() string {
 			grouped = append(grouped, r.String())
 		}
 	}
-	return strings.Join(plain, ";") + "|" + strings.Join(grouped, ";") + "|" + strings.Join(tail, ";") + fmt.Sprintf("|rebuild@%d", s.RebuildAfter)
+	return strings.Join(plain, ";") + "|" + strings.Join(grouped, ";") + "|" + strings.Join(tail, ";") + fmt.Sprintf("|rebuild@%d/%v", s.RebuildAfter, s.KeepSibling)
 }
 
 // AddTo applies registration i to a collection.
